@@ -52,8 +52,18 @@ fn account(v: V) {
 }
 
 impl Subscriber for FmtAll {
+    // The subscriber is the process-wide default from the first use on; whether it listens is a
+    // per-thread switch that `enabled` consults for every event and span ("sometimes" interest).  A
+    // scoped (thread-local) dispatcher does not work here: tracing caches a callsite's interest the
+    // first time the callsite is hit, and a callsite first hit outside the scope stays disabled for good.
+    fn register_callsite(&self, _m: &'static Metadata<'static>) -> tracing::subscriber::Interest {
+        tracing::subscriber::Interest::sometimes()
+    }
     fn enabled(&self, _m: &Metadata<'_>) -> bool {
-        true
+        ACTIVE.with(|a| a.get())
+    }
+    fn max_level_hint(&self) -> Option<tracing::level_filters::LevelFilter> {
+        Some(tracing::level_filters::LevelFilter::TRACE)
     }
     fn new_span(&self, span: &Attributes<'_>) -> Id {
         let mut v = V { buf: String::new() };
@@ -79,12 +89,39 @@ impl Subscriber for FmtAll {
 }
 
 thread_local! {
-    static DISPATCH: tracing::Dispatch = tracing::Dispatch::new(FmtAll::new());
+    static ACTIVE: Cell<bool> = const { Cell::new(false) };
 }
 
-/// Run `f` with the formatting subscriber as this thread's default.
+/// Install the subscriber as the process-wide default (idempotent).
+pub fn install() {
+    static ONCE: std::sync::Once = std::sync::Once::new();
+    ONCE.call_once(|| {
+        let _ = tracing::dispatcher::set_global_default(tracing::Dispatch::new(FmtAll::new()));
+    });
+}
+
+/// Run `f` with the formatting subscriber listening on this thread (everything enabled at TRACE,
+/// every field formatted).  Restores the previous state also when `f` unwinds.
 pub fn with_subscriber<T>(f: impl FnOnce() -> T) -> T {
-    DISPATCH.with(|d| tracing::dispatcher::with_default(d, f))
+    install();
+    struct Reset(bool);
+    impl Drop for Reset {
+        fn drop(&mut self) {
+            ACTIVE.with(|a| a.set(self.0));
+        }
+    }
+    let _r = Reset(ACTIVE.with(|a| a.replace(true)));
+    f()
+}
+
+/// Is the subscriber really receiving the library's events?  (one parse of a short buffer must log)
+pub fn probe() -> bool {
+    let before = events() + spans();
+    with_subscriber(|| {
+        let _ = stun_types::message::Message::from_bytes(&[0u8; 4]);
+        tracing::trace!("stunmon probe");
+    });
+    events() + spans() > before
 }
 
 pub fn formatted_bytes() -> u64 {
